@@ -500,6 +500,18 @@ Fixpoint min_by (best : generic_plan) (bk : N * N * N) (l : list (generic_plan *
   | (p, k) :: r => if key3_lt k bk then min_by p k r else min_by best bk r
   end.
 
+(* the keys of the final selection: (ceil cost, max mode index, #switches) *)
+Fixpoint with_keys (l : list generic_plan) : PR (list (generic_plan * (N * N * N))) :=
+  match l with
+  | [] => Ok []
+  | p :: r =>
+    let* c := gp_cost p in
+    let max_enc := fold_left N.max (map (fun e => et_index (snd e)) (gp_switches p)) 0 in
+    let* _ := (match gp_switches p with [] => Panic PAssert | _ => Ok tt end) in
+    let* r' := with_keys r in
+    Ok ((p, (frac_ceil c, max_enc, N.of_nat (length (gp_switches p)))) :: r')
+  end.
+
 Section Sorted.
 (* the sort oracle: given the call number and the list, a permutation of it sorted by cost *)
 Variable sorter : nat -> list generic_plan -> PR (list generic_plan).
@@ -523,16 +535,7 @@ Fixpoint opt_loop (fuel : nat) (iteration : nat) (data_len : N) (written : N) (m
     | [] => Ok (None, st)
     | p0 :: _ =>
       if at_end then
-        let* keyed := (fix go (l : list generic_plan) : PR (list (generic_plan * (N * N * N))) :=
-                         match l with
-                         | [] => Ok []
-                         | p :: r =>
-                           let* c := gp_cost p in
-                           let max_enc := fold_left N.max (map (fun e => et_index (snd e)) (gp_switches p)) 0 in
-                           let* _ := (match gp_switches p with [] => Panic PAssert | _ => Ok tt end) in
-                           let* r' := go r in
-                           Ok ((p, (frac_ceil c, max_enc, N.of_nat (length (gp_switches p)))) :: r')
-                         end) np in
+        let* keyed := with_keys np in
         match keyed with
         | [] => Panic PAssert
         | (p, k) :: r =>
